@@ -592,6 +592,9 @@ func (e *SpecEnv) evalQuant(x *SX) (*SV, error) {
 			if isString(t) {
 				s = StrSort
 			}
+			if _, isChan := under(t).(*types.Chan); isChan {
+				s = IntSort
+			}
 		}
 		if s == nil {
 			return nil, fmt.Errorf("quantified variable %s: type %s has no scalar sort", b.Name, b.Type)
@@ -920,6 +923,19 @@ func (e *SpecEnv) evalCall(x *SX) (*SV, error) {
 				return nil, err
 			}
 			return &SV{V: e.refKey(v), T: ghostType{IntSort}}, nil
+		case "last":
+			// last(ch): the value most recently placed on channel ch (ghost)
+			v, err := e.eval(args[0])
+			if err != nil {
+				return nil, err
+			}
+			ct, ok := under(v.T).(*types.Chan)
+			if !ok {
+				return nil, fmt.Errorf("last() needs a channel")
+			}
+			st := e.stateOf(v)
+			key := "ghost:last<" + chanKey(v.T) + ">"
+			return &SV{V: st.loadKey(PHeap, key, st.toTerm(e.value(v), v.T), nil, ct.Elem(), nil), T: ct.Elem()}, nil
 		case "fresh":
 			// fresh(x): the object x refers to (pointer, slice backing array) was allocated during this call
 			v, err := e.eval(args[0])
